@@ -678,19 +678,30 @@ Lemma reach_cons' c sc w ws nm ns n :
   In sc (c_subs c) -> In w (sc_words sc) -> nm = c_name sc -> reach sc ws ns n -> reach c (w :: ws) (nm :: ns) n.
 Proof. intros H1 H2 -> H3. eapply reach_cons; eassumption. Qed.
 
+(** the texts of the two evaluated examples below *)
+Definition ex_bin : bytes := lit "p a-b c".
+Definition ex_extern : bytes := lit "  export extern ""p a-b c"" [".
+Definition ex_line_both : bytes := lit "    --opt(-o): string@""nu-complete p a-b c o""".
+Definition ex_line_alias : bytes := lit "    --al: string@""nu-complete p a-b c o""".
+Definition ex_line_short_alias : bytes := lit "    -x: string@""nu-complete p a-b c o""".
+Definition ex_def : bytes := lit "  def ""nu-complete p a-b c o"" [] {".
+Definition ex_values : bytes := lit "    [ ""v1"" ""v2"" ]".
+Definition ex_hidden_alias : bytes := lit "--hi".
+Definition ex_extern_sub : bytes := lit "  export extern ""p sub"" [".
+
 Example generate_nushell_example :
   exists b n s,
     build (set_bin_name ex_fish_root [112]) = Some b /\
     reach b [[120]; [99]] [[97; 45; 98]; [99]] n /\ In ex_opt (c_args n) /\ aliases_have_primary n /\
-    bin_of n = lit "p a-b c" /\
+    bin_of n = ex_bin /\
     generate_nushell ex_fish_root cd0 [112] = Some s /\
-    has_infix s (lit "  export extern ""p a-b c"" [") = true /\
-    has_infix s (lit "    --opt(-o): string@""nu-complete p a-b c o""") = true /\
-    has_infix s (lit "    --al: string@""nu-complete p a-b c o""") = true /\
-    has_infix s (lit "    -x: string@""nu-complete p a-b c o""") = true /\
-    has_infix s (lit "  def ""nu-complete p a-b c o"" [] {") = true /\
-    has_infix s (lit "    [ ""v1"" ""v2"" ]") = true /\
-    has_infix s (lit "--hi") = false.
+    has_infix s ex_extern = true /\
+    has_infix s ex_line_both = true /\
+    has_infix s ex_line_alias = true /\
+    has_infix s ex_line_short_alias = true /\
+    has_infix s ex_def = true /\
+    has_infix s ex_values = true /\
+    has_infix s ex_hidden_alias = false.
 Proof.
   eexists. eexists. eexists. split; [vm_compute; reflexivity|]. split.
   { eapply reach_cons'; [left; reflexivity|right; left; reflexivity|reflexivity|].
@@ -720,7 +731,7 @@ Definition alias_sub_tree : cmd :=
 Lemma nushell_subcommand_alias_refuted :
   exists c d bin s sc w,
     generate_nushell c d bin = Some s /\ In sc (c_subs c) /\ In (w, true) (c_aliases sc) /\
-    has_infix s (lit "  export extern ""p sub"" [") = true /\ has_infix s w = false.
+    has_infix s ex_extern_sub = true /\ has_infix s w = false.
 Proof.
   exists alias_sub_tree, cd0, [112]. eexists. eexists. exists (lit "zz").
   split; [vm_compute; reflexivity|]. split; [left; reflexivity|]. split; [left; reflexivity|].
